@@ -1,5 +1,6 @@
 import Bmc.Driver.DecCore
 import Bmc.Proto.Session
+import Bmc.Lemmas.MetricsWire
 namespace Bmc.Driver
 open Bmc Bmc.Wire Bmc.Crypto Bmc.Proto
 
@@ -93,4 +94,34 @@ def evalSendSeq (args : List String) : String :=
       s!"seqs={sent.map fun d => le32 (d.drop 10)} res=[{", ".intercalate res}] inbound={s'.inbound}"
     | _, _, _, _, _ => "bad-op"
   | _ => "bad-op"
+end Bmc.Driver
+
+namespace Bmc.Driver
+open Bmc Bmc.Wire Bmc.Crypto Bmc.Proto
+
+/-- `sendm <15 send args>`: what the instrumentation model does during the call, each attempt's outcome being DERIVED
+    FROM THE BYTES of the scripted reply (`attOf`, the function the C18 theorem `wire_accounting` is about). A script
+    whose last item is `R!:…` ends with the context expiring while that reply is handled (`cancelled` follows it). -/
+def evalSendM (args : List String) : String :=
+  match args with
+  | [_auth, integ, k1, k2, lid, rid, _inb, fn, cmd, body, ent, lun, _req, _ivs, script] =>
+    match [integ, lid, rid, fn, cmd, body, ent, lun].mapM String.toNat?, parseHex k1, parseHex k2, parseScript script with
+    | some [integ, lid, rid, fn, cmd, body, ent, lun], some k1, some k2, some sc =>
+      let k : Keys := ⟨lid, rid, integ, k1, k2⟩
+      let c : Cmd := { fn := UInt8.ofNat fn, cmd := UInt8.ofNat cmd, body := UInt8.ofNat body, ent := ent, lun := UInt8.ofNat lun }
+      let atts := sc.map (attOf realOps k c)
+      let cancelled := ((script.splitOn ",").getLast?.map (·.startsWith "R!:")).getD false
+      let atts := if cancelled then atts ++ [Metrics.Att.cancelled] else atts
+      let m := Metrics.command {} "raw" true true atts
+      let ok := Metrics.succeeds true atts
+      let resp := m.responses.filter (·.2 != 0)
+      let resp := resp.foldl (fun acc x => insertSortedNat x acc) []
+      let rs := if resp.isEmpty then "-" else ",".intercalate (resp.map fun (c, n) => s!"{c}:{n}")
+      s!"res={if ok then "ok" else "err"} retries={m.retries} attempts={Metrics.cnt "raw" m.cmdAttempts} failures={Metrics.cnt "raw" m.cmdFailures} responses={rs}"
+    | _, _, _, _ => "bad-op"
+  | _ => "bad-op"
+where
+  insertSortedNat (x : Nat × Nat) : List (Nat × Nat) → List (Nat × Nat)
+    | [] => [x]
+    | y :: r => if x.1 < y.1 then x :: y :: r else y :: insertSortedNat x r
 end Bmc.Driver
